@@ -765,4 +765,733 @@ Proof.
     + destruct (vm_value_mut_node T m g i p v l r Hv Hs) as [_ [A [_ [_ [_ E]]]]]. auto.
 Qed.
 
+(** a write whose slots all lie in the subtree at [pa] is a write to that subtree: nothing
+    outside the view is touched *)
+Theorem write_ids_local (pa : path) : forall (T : tree) ws,
+  NoDup (ids T) -> (forall i, In i (map fst ws) -> In i (ids (subtree T pa))) ->
+  write_ids T ws = subst T pa (write_ids (subtree T pa) ws).
+Proof.
+  induction pa as [|b pa IH]; intros T ws Hnd Hws.
+  - rewrite subtree_nil, subst_nil. reflexivity.
+  - destruct T as [|i p v l r]; [reflexivity|].
+    cbn [subtree] in Hws. cbn [Slots.ids] in Hnd.
+    inversion Hnd as [|i' l' Hi Hlr]; subst. destruct (nodup_app_inv _ _ Hlr) as [Hl [Hr Hd]].
+    assert (Hsub : forall j, In j (map fst ws) -> In j (ids (if b then r else l))).
+    { intros j Hj. apply Hws in Hj. apply (subtree_ids_incl pa _ j Hj). }
+    assert (Hi' : assoc_id ws i = None).
+    { apply assoc_id_none. intros Hin. apply Hsub in Hin. apply Hi. apply in_app_iff.
+      destruct b; auto. }
+    cbn [write_ids subst subtree]. rewrite Hi'.
+    assert (Hv : match v with Some _ => v | None => v end = v) by (destruct v; reflexivity).
+    rewrite Hv. destruct b.
+    + rewrite (write_ids_foreign l ws), <- (IH r ws Hr Hws); [reflexivity|].
+      intros j Hj Hin. apply (Hd j Hj). apply Hsub. exact Hin.
+    + rewrite (write_ids_foreign r ws), <- (IH l ws Hl Hws); [reflexivity|].
+      intros j Hj Hin. apply (Hd j); [apply Hsub; exact Hin | exact Hj].
+Qed.
+
+(** a node is reached by one path only *)
+Theorem subtree_path_unique (pa : path) : forall (T : tree) (pa' : path),
+  NoDup (ids T) -> subtree T pa <> Leaf -> subtree T pa = subtree T pa' -> pa = pa'.
+Proof.
+  assert (Hroot : forall (t : tree) i p v l r, t = Node i p v l r -> In i (ids t)).
+  { intros t i p v l r ->. left. reflexivity. }
+  induction pa as [|b pa IH]; intros T pa' Hnd Hn E.
+  - destruct pa' as [|b' pa']; [reflexivity|]. exfalso. rewrite subtree_nil in *.
+    destruct T as [|i p v l r]; [apply Hn; reflexivity|]. cbn [subtree] in E.
+    cbn [Slots.ids] in Hnd. inversion Hnd as [|i' l' Hi Hlr]; subst. apply Hi.
+    symmetry in E. apply Hroot in E. apply (subtree_ids_incl pa') in E. apply in_app_iff.
+    destruct b'; auto.
+  - destruct T as [|i p v l r]; [exfalso; apply Hn; reflexivity|].
+    cbn [Slots.ids] in Hnd. inversion Hnd as [|i' l' Hi Hlr]; subst.
+    destruct (nodup_app_inv _ _ Hlr) as [Hl [Hr Hd]].
+    destruct pa' as [|b' pa'].
+    + exfalso. rewrite subtree_nil in E. cbn [subtree] in E. apply Hi.
+      apply Hroot in E. apply (subtree_ids_incl pa) in E. apply in_app_iff. destruct b; auto.
+    + cbn [subtree] in Hn, E.
+      destruct (subtree (if b then r else l) pa) as [|j pj vj lj rj] eqn:Es; [exfalso; apply Hn; reflexivity|].
+      pose proof (Hroot _ _ _ _ _ _ Es) as H1. apply (subtree_ids_incl pa) in H1.
+      symmetry in E. pose proof (Hroot _ _ _ _ _ _ E) as H2. apply (subtree_ids_incl pa') in H2.
+      destruct b, b'.
+      * f_equal. apply (IH r pa' Hr); [rewrite Es; discriminate | rewrite Es, E; reflexivity].
+      * exfalso. exact (Hd j H2 H1).
+      * exfalso. exact (Hd j H1 H2).
+      * f_equal. apply (IH l pa' Hl); [rewrite Es; discriminate | rewrite Es, E; reflexivity].
+Qed.
+
 End MA.
+
+(* ========================================================================================== *)
+(** * PART B: the mutable twins compute the same locations *)
+Section MB.
+Variables (pfx V : Type).
+Variables (peq contains : pfx -> pfx -> bool) (is_bit_set : pfx -> N -> bool)
+          (plen : pfx -> N) (lcp : pfx -> pfx -> pfx) (pzero : pfx)
+          (mcmp : pfx -> pfx -> comparison).
+Variable bits : pfx -> list bool.
+Variable ok : pfx -> Prop.
+Hypothesis LAWS : prefix_laws pfx peq contains is_bit_set plen lcp pzero mcmp bits ok.
+
+Notation tree := (Trie.tree pfx V).
+Notation view := (Views.view pfx V).
+Notation vmut := (Views.vmut pfx).
+Notation mkvmut := (Views.mkvmut pfx).
+Notation mpath := (Views.mpath pfx).
+Notation mvirt := (Views.mvirt pfx).
+Notation ids := (Slots.ids pfx V).
+Notation to_right := (to_right pfx is_bit_set plen).
+Notation tpfx := (tpfx pfx V pzero).
+Notation find_walk := (find_walk pfx V peq contains is_bit_set plen).
+Notation v_find := (v_find pfx V peq contains is_bit_set plen).
+Notation find_exact_walk := (find_exact_walk pfx V peq contains is_bit_set plen).
+Notation v_find_exact := (v_find_exact pfx V peq contains is_bit_set plen).
+Notation find_lpm_walk := (find_lpm_walk pfx V peq contains is_bit_set plen).
+Notation v_find_lpm := (v_find_lpm pfx V peq contains is_bit_set plen).
+Notation v_left := (v_left pfx V is_bit_set plen pzero).
+Notation v_right := (v_right pfx V is_bit_set plen pzero).
+Notation v_prefix := (v_prefix pfx V pzero).
+Notation find_walk_m := (find_walk_m pfx V peq contains is_bit_set plen).
+Notation vm_find := (vm_find pfx V peq contains is_bit_set plen).
+Notation find_exact_walk_m := (find_exact_walk_m pfx V peq contains is_bit_set plen).
+Notation vm_find_exact := (vm_find_exact pfx V peq contains is_bit_set plen).
+Notation find_lpm_walk_m := (find_lpm_walk_m pfx V peq contains is_bit_set plen).
+Notation vm_find_lpm := (vm_find_lpm pfx V peq contains is_bit_set plen).
+Notation vm_has_left := (vm_has_left pfx V is_bit_set plen pzero).
+Notation vm_has_right := (vm_has_right pfx V is_bit_set plen pzero).
+Notation vm_left := (vm_left pfx V is_bit_set plen pzero).
+Notation vm_right := (vm_right pfx V is_bit_set plen pzero).
+Notation vm_split := (vm_split pfx V is_bit_set plen pzero).
+Notation vm_prefix := (vm_prefix pfx V pzero).
+Notation children_start := (children_start pfx V peq contains is_bit_set plen).
+Notation children := (Trie.children pfx V peq contains is_bit_set plen).
+Notation children_mut := (Trie.children_mut pfx V peq contains is_bit_set plen).
+Notation into_children := (Trie.into_children pfx V peq contains is_bit_set plen).
+Notation view_wf := (ViewsThm.view_wf pfx V pzero bits ok).
+Notation v_entries := (ViewsThm.v_entries pfx V).
+
+(* ------------------------------------------------------------------------------------------ *)
+(** ** 7. the loops *)
+
+(** the read-only view designated by a result of the mutable [find] loop *)
+Definition loc_view (t : tree) (q : pfx) (r : path * bool) : view :=
+  let '(pa, vi) := r in if vi then VVirt q (subtree t pa) else VNode (subtree t pa).
+
+Theorem find_walk_m_sim (t : tree) : forall q,
+  find_walk t q = option_map (loc_view t q) (find_walk_m t q).
+Proof.
+  induction t as [|i0 p0 v0 l IHl r IHr]; intros q; [reflexivity|].
+  cbn [Views.find_walk Views.find_walk_m].
+  destruct (peq p0 q); [reflexivity|].
+  destruct (to_right p0 q).
+  - destruct r as [|ci cp cv cl cr]; [reflexivity|]. destruct (contains cp q).
+    + rewrite IHr. destruct (find_walk_m (Node ci cp cv cl cr) q) as [[pa vi]|]; reflexivity.
+    + destruct (contains q cp); reflexivity.
+  - destruct l as [|ci cp cv cl cr]; [reflexivity|]. destruct (contains cp q).
+    + rewrite IHl. destruct (find_walk_m (Node ci cp cv cl cr) q) as [[pa vi]|]; reflexivity.
+    + destruct (contains q cp); reflexivity.
+Qed.
+
+Corollary find_walk_m_some (t : tree) q pa (vi : bool) :
+  find_walk_m t q = Some (pa, vi) ->
+  find_walk t q = Some (if vi then VVirt q (subtree t pa) else VNode (subtree t pa)).
+Proof. intros H. rewrite find_walk_m_sim, H. reflexivity. Qed.
+
+Corollary find_walk_m_none (t : tree) q : find_walk_m t q = None <-> find_walk t q = None.
+Proof.
+  rewrite find_walk_m_sim. destruct (find_walk_m t q) as [[pa vi]|]; cbn; split; intros H; congruence.
+Qed.
+
+(** the converse holds up to the choice of the path; two different paths may lead to equal
+    subtrees when slots are not distinct, hence the [_partial] *)
+Corollary find_walk_m_conv_partial (t : tree) q pa (vi : bool) :
+  find_walk t q = Some (if vi then VVirt q (subtree t pa) else VNode (subtree t pa)) ->
+  exists pa', find_walk_m t q = Some (pa', vi) /\ subtree t pa' = subtree t pa.
+Proof.
+  rewrite find_walk_m_sim. destruct (find_walk_m t q) as [[pa' vi']|]; [|discriminate].
+  cbn [option_map loc_view]. intros H. exists pa'. destruct vi, vi'; inversion H; auto.
+Qed.
+
+Lemma find_walk_m_node (t : tree) : forall q pa vi,
+  find_walk_m t q = Some (pa, vi) -> subtree t pa <> Leaf.
+Proof.
+  induction t as [|i0 p0 v0 l IHl r IHr]; intros q pa vi H; [discriminate|].
+  cbn [Views.find_walk_m] in H.
+  destruct (peq p0 q); [inversion H; subst; discriminate|].
+  destruct (to_right p0 q).
+  - destruct r as [|ci cp cv cl cr]; [discriminate|]. destruct (contains cp q).
+    + destruct (find_walk_m (Node ci cp cv cl cr) q) as [[pa' vi']|] eqn:F; [|discriminate].
+      inversion H; subst. cbn [subtree]. eapply IHr. exact F.
+    + destruct (contains q cp); [|discriminate]. inversion H; subst. discriminate.
+  - destruct l as [|ci cp cv cl cr]; [discriminate|]. destruct (contains cp q).
+    + destruct (find_walk_m (Node ci cp cv cl cr) q) as [[pa' vi']|] eqn:F; [|discriminate].
+      inversion H; subst. cbn [subtree]. eapply IHl. exact F.
+    + destruct (contains q cp); [|discriminate]. inversion H; subst. discriminate.
+Qed.
+
+(** with distinct slots the correspondence is exact *)
+Theorem find_walk_m_iff (t : tree) q pa (vi : bool) :
+  NoDup (ids t) ->
+  (find_walk_m t q = Some (pa, vi) <->
+   find_walk t q = Some (if vi then VVirt q (subtree t pa) else VNode (subtree t pa))).
+Proof.
+  intros Hnd. split; [apply find_walk_m_some|]. intros H.
+  destruct (find_walk_m_conv_partial t q pa vi H) as [pa' [F E]].
+  rewrite F. f_equal. f_equal.
+  apply (subtree_path_unique pfx V pa' t pa Hnd); [|exact E].
+  eapply find_walk_m_node. exact F.
+Qed.
+
+Theorem find_exact_walk_m_sim (t : tree) : forall q,
+  find_exact_walk t q = option_map (fun pa => VNode (subtree t pa)) (find_exact_walk_m t q).
+Proof.
+  induction t as [|i0 p0 v0 l IHl r IHr]; intros q; [reflexivity|].
+  cbn [Views.find_exact_walk Views.find_exact_walk_m].
+  destruct (peq p0 q); [destruct (is_some v0); reflexivity|].
+  destruct (to_right p0 q).
+  - destruct r as [|ci cp cv cl cr]; [reflexivity|]. destruct (contains cp q); [|reflexivity].
+    rewrite IHr. destruct (find_exact_walk_m (Node ci cp cv cl cr) q); reflexivity.
+  - destruct l as [|ci cp cv cl cr]; [reflexivity|]. destruct (contains cp q); [|reflexivity].
+    rewrite IHl. destruct (find_exact_walk_m (Node ci cp cv cl cr) q); reflexivity.
+Qed.
+
+Corollary find_exact_walk_m_some (t : tree) q pa :
+  find_exact_walk_m t q = Some pa -> find_exact_walk t q = Some (VNode (subtree t pa)).
+Proof. intros H. rewrite find_exact_walk_m_sim, H. reflexivity. Qed.
+
+Corollary find_exact_walk_m_none (t : tree) q :
+  find_exact_walk_m t q = None <-> find_exact_walk t q = None.
+Proof.
+  rewrite find_exact_walk_m_sim. destruct (find_exact_walk_m t q); cbn; split; intros H; congruence.
+Qed.
+
+Corollary find_exact_walk_m_conv_partial (t : tree) q pa :
+  find_exact_walk t q = Some (VNode (subtree t pa)) ->
+  exists pa', find_exact_walk_m t q = Some pa' /\ subtree t pa' = subtree t pa.
+Proof.
+  rewrite find_exact_walk_m_sim. destruct (find_exact_walk_m t q) as [pa'|]; [|discriminate].
+  cbn [option_map]. intros H. exists pa'. inversion H; auto.
+Qed.
+
+Lemma find_exact_walk_m_node (t : tree) : forall q pa,
+  find_exact_walk_m t q = Some pa -> subtree t pa <> Leaf.
+Proof.
+  induction t as [|i0 p0 v0 l IHl r IHr]; intros q pa H; [discriminate|].
+  cbn [Views.find_exact_walk_m] in H.
+  destruct (peq p0 q); [destruct (is_some v0); inversion H; subst; discriminate|].
+  destruct (to_right p0 q).
+  - destruct r as [|ci cp cv cl cr]; [discriminate|]. destruct (contains cp q); [|discriminate].
+    destruct (find_exact_walk_m (Node ci cp cv cl cr) q) as [pa'|] eqn:F; [|discriminate].
+    inversion H; subst. cbn [subtree]. eapply IHr. exact F.
+  - destruct l as [|ci cp cv cl cr]; [discriminate|]. destruct (contains cp q); [|discriminate].
+    destruct (find_exact_walk_m (Node ci cp cv cl cr) q) as [pa'|] eqn:F; [|discriminate].
+    inversion H; subst. cbn [subtree]. eapply IHl. exact F.
+Qed.
+
+Theorem find_exact_walk_m_iff (t : tree) q pa :
+  NoDup (ids t) ->
+  (find_exact_walk_m t q = Some pa <-> find_exact_walk t q = Some (VNode (subtree t pa))).
+Proof.
+  intros Hnd. split; [apply find_exact_walk_m_some|]. intros H.
+  destruct (find_exact_walk_m_conv_partial t q pa H) as [pa' [F E]].
+  rewrite F. f_equal.
+  apply (subtree_path_unique pfx V pa' t pa Hnd); [|exact E].
+  eapply find_exact_walk_m_node. exact F.
+Qed.
+
+(** [find_lpm]: the mutable loop accumulates the reversed path [cur] from the root [t0] of the
+    descent and remembers the reversed path of the best node *)
+Definition lpm_loc (t0 : tree) (rp : path) : view := VNode (subtree t0 (rev rp)).
+
+Theorem find_lpm_walk_m_sim (t0 t : tree) : forall q cur best,
+  subtree t0 (rev cur) = t ->
+  find_lpm_walk t q (option_map (lpm_loc t0) best)
+  = option_map (lpm_loc t0) (find_lpm_walk_m t q cur best).
+Proof.
+  induction t as [|i0 p0 v0 l IHl r IHr]; intros q cur best Hc; [reflexivity|].
+  cbn [Views.find_lpm_walk Views.find_lpm_walk_m].
+  assert (Hb : (if is_some v0 then Some (VNode (Node i0 p0 v0 l r)) else option_map (lpm_loc t0) best)
+               = option_map (lpm_loc t0) (if is_some v0 then Some cur else best)).
+  { destruct (is_some v0); [|reflexivity]. cbn [option_map]. unfold lpm_loc. rewrite Hc. reflexivity. }
+  rewrite Hb. clear Hb.
+  destruct (peq p0 q); [reflexivity|].
+  destruct (to_right p0 q).
+  - destruct r as [|ci cp cv cl cr]; [reflexivity|]. destruct (contains cp q); [|reflexivity].
+    apply IHr. cbn [rev]. rewrite (subtree_app pfx V), Hc. reflexivity.
+  - destruct l as [|ci cp cv cl cr]; [reflexivity|]. destruct (contains cp q); [|reflexivity].
+    apply IHl. cbn [rev]. rewrite (subtree_app pfx V), Hc. reflexivity.
+Qed.
+
+Corollary find_lpm_walk_m_root (t : tree) q :
+  find_lpm_walk t q None
+  = option_map (fun rp => VNode (subtree t (rev rp))) (find_lpm_walk_m t q [] None).
+Proof.
+  apply (find_lpm_walk_m_sim t t q [] None). apply (subtree_nil pfx V).
+Qed.
+
+(* ------------------------------------------------------------------------------------------ *)
+(** ** 8. the simulation theorems *)
+
+Lemma v_tree_vm_view (T : tree) (m : vmut) : v_tree (vm_view T m) = vm_tree T m.
+Proof. unfold vm_view. destruct (mvirt m); reflexivity. Qed.
+
+Theorem vm_find_sim (T : tree) (m : vmut) q :
+  option_map (vm_view T) (vm_find T m q) = v_find (vm_view T m) q.
+Proof.
+  unfold Views.vm_find, Views.v_find. rewrite v_tree_vm_view.
+  destruct (vm_tree T m) as [|i p v l r] eqn:E; [reflexivity|].
+  destruct (contains q p && negb (peq p q)).
+  - cbn [option_map]. unfold vm_view, vm_tree in *. cbn [Views.mvirt Views.mpath]. rewrite E. reflexivity.
+  - rewrite find_walk_m_sim.
+    destruct (find_walk_m (Node i p v l r) q) as [[pa vi]|]; [|reflexivity].
+    cbn [option_map loc_view]. unfold vm_view, vm_tree in *. cbn [Views.mvirt Views.mpath].
+    rewrite (subtree_app pfx V), E. destruct vi; reflexivity.
+Qed.
+
+Theorem vm_find_exact_sim (T : tree) (m : vmut) q :
+  option_map (vm_view T) (vm_find_exact T m q) = v_find_exact (vm_view T m) q.
+Proof.
+  unfold Views.vm_find_exact, Views.v_find_exact. rewrite v_tree_vm_view, find_exact_walk_m_sim.
+  destruct (find_exact_walk_m (vm_tree T m) q) as [pa|]; [|reflexivity].
+  cbn [option_map]. unfold vm_view, vm_tree. cbn [Views.mvirt Views.mpath].
+  rewrite (subtree_app pfx V). reflexivity.
+Qed.
+
+Theorem vm_find_lpm_sim (T : tree) (m : vmut) q :
+  option_map (vm_view T) (vm_find_lpm T m q) = v_find_lpm (vm_view T m) q.
+Proof.
+  unfold Views.vm_find_lpm, Views.v_find_lpm. rewrite v_tree_vm_view.
+  destruct (vm_tree T m) as [|i p v l r] eqn:E; [reflexivity|].
+  destruct (contains p q); [|reflexivity].
+  rewrite find_lpm_walk_m_root.
+  destruct (find_lpm_walk_m (Node i p v l r) q [] None) as [rpa|]; [|reflexivity].
+  cbn [option_map]. unfold vm_view, vm_tree in *. cbn [Views.mvirt Views.mpath].
+  rewrite (subtree_app pfx V), E. reflexivity.
+Qed.
+
+Lemma subtree_side (t : tree) (b : bool) : subtree t [b] = if b then tright t else tleft t.
+Proof. destruct t as [|i p v l r]; [destruct b; reflexivity|]. cbn [subtree tleft tright]. destruct b; apply (subtree_nil pfx V). Qed.
+
+Theorem vm_left_sim (T : tree) (m : vmut) :
+  option_map (vm_view T) (vm_left T m) = v_left (vm_view T m).
+Proof.
+  unfold Views.vm_left, vm_view. destruct (mvirt m) as [p|]; cbn [Views.v_left].
+  - destruct (negb (to_right p (tpfx (vm_tree T m)))); reflexivity.
+  - destruct (tleft (vm_tree T m)) as [|i p v l r] eqn:E; cbn [is_node]; [reflexivity|].
+    cbn [option_map Views.mvirt]. unfold vm_tree in *. cbn [Views.mpath].
+    rewrite (subtree_app pfx V), subtree_side, E. reflexivity.
+Qed.
+
+Theorem vm_right_sim (T : tree) (m : vmut) :
+  option_map (vm_view T) (vm_right T m) = v_right (vm_view T m).
+Proof.
+  unfold Views.vm_right, vm_view. destruct (mvirt m) as [p|]; cbn [Views.v_right].
+  - destruct (to_right p (tpfx (vm_tree T m))); reflexivity.
+  - destruct (tright (vm_tree T m)) as [|i p v l r] eqn:E; cbn [is_node]; [reflexivity|].
+    cbn [option_map Views.mvirt]. unfold vm_tree in *. cbn [Views.mpath].
+    rewrite (subtree_app pfx V), subtree_side, E. reflexivity.
+Qed.
+
+Theorem vm_split_eq (T : tree) (m : vmut) : vm_split T m = (vm_left T m, vm_right T m).
+Proof.
+  unfold Views.vm_split, Views.vm_left, Views.vm_right. destruct (mvirt m) as [p|]; [|reflexivity].
+  destruct (to_right p (tpfx (vm_tree T m))); reflexivity.
+Qed.
+
+Corollary vm_split_sim (T : tree) (m : vmut) :
+  (option_map (vm_view T) (fst (vm_split T m)), option_map (vm_view T) (snd (vm_split T m)))
+  = (v_left (vm_view T m), v_right (vm_view T m)).
+Proof. rewrite vm_split_eq. cbn [fst snd]. rewrite vm_left_sim, vm_right_sim. reflexivity. Qed.
+
+Theorem vm_has_left_spec (T : tree) (m : vmut) : vm_has_left T m = true <-> vm_left T m <> None.
+Proof.
+  unfold Views.vm_has_left, Views.vm_left. destruct (mvirt m) as [p|].
+  - destruct (negb (to_right p (tpfx (vm_tree T m)))); split; intros H; congruence.
+  - destruct (is_node (tleft (vm_tree T m))); split; intros H; congruence.
+Qed.
+
+Theorem vm_has_right_spec (T : tree) (m : vmut) : vm_has_right T m = true <-> vm_right T m <> None.
+Proof.
+  unfold Views.vm_has_right, Views.vm_right. destruct (mvirt m) as [p|].
+  - destruct (to_right p (tpfx (vm_tree T m))); split; intros H; congruence.
+  - destruct (is_node (tright (vm_tree T m))); split; intros H; congruence.
+Qed.
+
+Theorem vm_prefix_sim (T : tree) (m : vmut) : vm_prefix T m = v_prefix (vm_view T m).
+Proof. unfold Views.vm_prefix, vm_view. destruct (mvirt m); reflexivity. Qed.
+
+Theorem vm_value_sim (T : tree) (m : vmut) : vm_value T m = v_value (vm_view T m).
+Proof. unfold vm_value, vm_view. destruct (mvirt m); reflexivity. Qed.
+
+Theorem vm_iter_mut_spec (T : tree) (m : vmut) : vm_iter_mut T m = entries_id (vm_tree T m).
+Proof. unfold vm_iter_mut. apply iter_mut_items_spec. Qed.
+
+Theorem v_iter_vm_view (T : tree) (m : vmut) : v_iter (vm_view T m) = entries_id (vm_tree T m).
+Proof. unfold v_iter. rewrite v_tree_vm_view. apply iter_items_spec. Qed.
+
+(** the mutable iteration of a view yields the same items in the same order as the read-only one *)
+Theorem vm_iter_mut_sim (T : tree) (m : vmut) : vm_iter_mut T m = v_iter (vm_view T m).
+Proof. rewrite vm_iter_mut_spec, v_iter_vm_view. reflexivity. Qed.
+
+(** the references yielded by the mutable iteration of a view are distinct slots of the view's
+    subtree, and items of the whole map *)
+Corollary vm_iter_mut_refs (T : tree) (m : vmut) :
+  NoDup (ids T) ->
+  NoDup (map (slot3 pfx V) (vm_iter_mut T m)) /\ incl (vm_iter_mut T m) (entries_id T).
+Proof.
+  intros Hnd. rewrite vm_iter_mut_spec. unfold vm_tree. split.
+  - apply entry_slots_nodup. apply subtree_nodup. exact Hnd.
+  - apply subtree_entries_id_incl.
+Qed.
+
+(** the two halves of a split hand out disjoint references *)
+Corollary vm_split_refs_disjoint (T : tree) (m ml mr : vmut) :
+  NoDup (ids T) -> mvirt m = None -> vm_split T m = (Some ml, Some mr) ->
+  forall i, In i (map (slot3 pfx V) (vm_iter_mut T ml)) -> ~ In i (map (slot3 pfx V) (vm_iter_mut T mr)).
+Proof.
+  intros Hnd Hv Hs i. rewrite !vm_iter_mut_spec. unfold Views.vm_split in Hs. rewrite Hv in Hs.
+  destruct (is_node (tleft (vm_tree T m))); [|discriminate].
+  destruct (is_node (tright (vm_tree T m))); [|discriminate].
+  inversion Hs; subst. unfold vm_tree. cbn [Views.mpath]. intros H1 H2.
+  apply (split_slots_disjoint pfx V T (mpath m) Hnd i); apply slots_in_ids; assumption.
+Qed.
+
+(* ------------------------------------------------------------------------------------------ *)
+(** ** the specifications of the read-only views, transferred to the mutable twins
+    (these use the prefix laws through [ViewsThm]) *)
+
+Definition vmut_wf (T : tree) (m : vmut) : Prop := view_wf (vm_view T m).
+
+Theorem vm_find_spec (T : tree) (m : vmut) q :
+  vmut_wf T m -> ok q ->
+  match vm_find T m q with
+  | Some m' =>
+    vmut_wf T m' /\ bits (vm_prefix T m') = bits q /\
+    forall e, In e (v_entries (vm_view T m')) <->
+              In e (v_entries (vm_view T m)) /\ prefix_of (bits q) (TrieWf.key pfx V bits e)
+  | None => forall e, In e (v_entries (vm_view T m)) -> ~ prefix_of (bits q) (TrieWf.key pfx V bits e)
+  end.
+Proof.
+  intros Hwf Hq.
+  pose proof (v_find_spec pfx V peq contains is_bit_set plen lcp pzero mcmp bits ok LAWS (vm_view T m) q Hwf Hq) as H.
+  rewrite <- vm_find_sim in H. destruct (vm_find T m q) as [m'|]; cbn [option_map] in H; [|exact H].
+  rewrite vm_prefix_sim. exact H.
+Qed.
+
+Theorem vm_find_exact_spec (T : tree) (m : vmut) q :
+  vmut_wf T m -> ok q ->
+  match vm_find_exact T m q with
+  | Some m' => vmut_wf T m' /\ mvirt m' = None /\ bits (vm_prefix T m') = bits q /\
+               exists x, vm_value T m' = Some x /\ In (vm_prefix T m', x) (v_entries (vm_view T m))
+  | None => forall e, In e (v_entries (vm_view T m)) -> TrieWf.key pfx V bits e <> bits q
+  end.
+Proof.
+  intros Hwf Hq.
+  pose proof (v_find_exact_spec pfx V peq contains is_bit_set plen lcp pzero mcmp bits ok LAWS (vm_view T m) q Hwf Hq) as H.
+  rewrite <- vm_find_exact_sim in H.
+  unfold Views.vm_find_exact in *. destruct (find_exact_walk_m (vm_tree T m) q) as [pa|]; cbn [option_map] in H; [|exact H].
+  rewrite vm_prefix_sim, vm_value_sim. destruct H as [A [_ [B C]]].
+  split; [exact A|]. split; [reflexivity|]. split; [exact B | exact C].
+Qed.
+
+Theorem vm_find_lpm_spec (T : tree) (m : vmut) q :
+  vmut_wf T m -> ok q ->
+  match vm_find_lpm T m q with
+  | Some m' => exists e, mvirt m' = None /\ v_prefix_value (vm_view T m') = Some e /\
+                         is_lpm pfx V bits (v_entries (vm_view T m)) q e
+  | None => no_cover pfx V bits (v_entries (vm_view T m)) q
+  end.
+Proof.
+  intros Hwf Hq.
+  pose proof (v_find_lpm_spec pfx V peq contains is_bit_set plen lcp pzero mcmp bits ok LAWS (vm_view T m) q Hwf Hq) as H.
+  rewrite <- vm_find_lpm_sim in H.
+  destruct (vm_find_lpm T m q) as [m'|] eqn:F; cbn [option_map] in H; [|exact H].
+  destruct H as [e [A [B C]]]. exists e. split; [|split; [exact B | exact C]].
+  unfold vm_view in A. destruct (mvirt m'); [discriminate | reflexivity].
+Qed.
+
+Theorem vm_side_spec (T : tree) (m : vmut) (s : bool) :
+  vmut_wf T m ->
+  match (if s then vm_right T m else vm_left T m) with
+  | Some m' =>
+    vmut_wf T m' /\ mvirt m' = None /\
+    forall e, In e (v_entries (vm_view T m')) <->
+              In e (v_entries (vm_view T m)) /\
+              prefix_of (bits (vm_prefix T m) ++ [s]) (TrieWf.key pfx V bits e)
+  | None => forall e, In e (v_entries (vm_view T m)) ->
+                      ~ prefix_of (bits (vm_prefix T m) ++ [s]) (TrieWf.key pfx V bits e)
+  end.
+Proof.
+  intros Hwf.
+  pose proof (v_side_spec pfx V peq contains is_bit_set plen lcp pzero mcmp bits ok LAWS (vm_view T m) s Hwf) as H.
+  unfold side_prefix in H. rewrite <- vm_prefix_sim in H.
+  assert (E : (if s then v_right (vm_view T m) else v_left (vm_view T m))
+              = option_map (vm_view T) (if s then vm_right T m else vm_left T m)).
+  { destruct s; [rewrite vm_right_sim | rewrite vm_left_sim]; reflexivity. }
+  rewrite E in H. clear E.
+  destruct (if s then vm_right T m else vm_left T m) as [m'|]; cbn [option_map] in H; [|exact H].
+  destruct H as [A [B C]]. split; [exact A|]. split; [|exact C].
+  unfold vm_view in B. destruct (mvirt m'); [discriminate | reflexivity].
+Qed.
+
+(* ------------------------------------------------------------------------------------------ *)
+(** ** 9. the map-level mutable traversals *)
+
+Theorem iter_mut_items_eq (t : tree) : iter_mut_items pfx V t = iter_items pfx V t.
+Proof. rewrite iter_mut_items_spec, iter_items_spec. reflexivity. Qed.
+
+Theorem into_iter_items_eq (t : tree) : into_iter_items pfx V t = iter_items pfx V t.
+Proof. rewrite into_iter_items_spec, iter_items_spec. reflexivity. Qed.
+
+Lemma children_start_nodes (t : tree) : forall q,
+  Forall (fun c => is_node c = true) (children_start t q).
+Proof.
+  induction t as [|i0 p0 v0 l IHl r IHr]; intros q; [constructor|].
+  cbn [Trie.children_start].
+  destruct (peq p0 q); [repeat constructor|].
+  destruct (to_right p0 q).
+  - destruct r as [|ci cp cv cl cr]; [constructor|]. destruct (contains cp q); [apply IHr|].
+    destruct (contains q cp); repeat constructor.
+  - destruct l as [|ci cp cv cl cr]; [constructor|]. destruct (contains cp q); [apply IHl|].
+    destruct (contains q cp); repeat constructor.
+Qed.
+
+Theorem children_spec (t : tree) q : children t q = flat_map entries_id (children_start t q).
+Proof. unfold Trie.children. rewrite iter_run_spec by apply children_start_nodes. reflexivity. Qed.
+
+Theorem children_mut_eq (t : tree) q : children_mut t q = children t q.
+Proof.
+  unfold Trie.children_mut, Trie.children, iter_run.
+  rewrite (run_ext (iter_mut_expand pfx V) (iter_expand pfx V) (iter_mut_expand_eq pfx V)). reflexivity.
+Qed.
+
+Theorem into_children_eq (t : tree) q : into_children t q = children t q.
+Proof.
+  unfold Trie.into_children, Trie.children, iter_run.
+  rewrite (run_ext (into_iter_expand pfx V) (iter_expand pfx V) (into_iter_expand_eq pfx V)). reflexivity.
+Qed.
+
+(** the children of [q] are the items of the subtree located by [find] *)
+Theorem children_find (t : tree) q :
+  children t q = match find_walk t q with Some v' => entries_id (v_tree v') | None => [] end.
+Proof.
+  rewrite children_spec. pose proof (find_walk_children pfx V peq contains is_bit_set plen t q) as H.
+  destruct (find_walk t q) as [v'|]; rewrite H; cbn [flat_map]; [apply app_nil_r | reflexivity].
+Qed.
+
+Corollary children_mut_find (t : tree) q :
+  children_mut t q
+  = match find_walk_m t q with Some (pa, _) => entries_id (subtree t pa) | None => [] end.
+Proof.
+  rewrite children_mut_eq, children_find, find_walk_m_sim.
+  destruct (find_walk_m t q) as [[pa vi]|]; [|reflexivity]. destruct vi; reflexivity.
+Qed.
+
+(** all map-level mutable traversals yield references to distinct slots, items of the map *)
+Theorem children_mut_refs (t : tree) q :
+  NoDup (ids t) ->
+  NoDup (map (slot3 pfx V) (children_mut t q)) /\ incl (children_mut t q) (entries_id t).
+Proof.
+  intros Hnd. rewrite children_mut_find. destruct (find_walk_m t q) as [[pa vi]|].
+  - split; [apply entry_slots_nodup; apply subtree_nodup; exact Hnd | apply subtree_entries_id_incl].
+  - split; [constructor | intros e []].
+Qed.
+
+Theorem iter_mut_refs (t : tree) :
+  NoDup (ids t) ->
+  NoDup (map (slot3 pfx V) (iter_mut_items pfx V t)) /\ iter_mut_items pfx V t = entries_id t.
+Proof.
+  intros Hnd. rewrite iter_mut_items_spec. split; [apply entry_slots_nodup; exact Hnd | reflexivity].
+Qed.
+
+(* ------------------------------------------------------------------------------------------ *)
+(** ** [get_mut] / [get_lpm_mut]: the reference handed out is an item of the map, and writing
+    through it is the keyed update *)
+
+Notation get_node := (Trie.get_node pfx V peq contains is_bit_set plen).
+Notation modify := (Trie.modify pfx V peq contains is_bit_set plen).
+Notation lpm_walk := (Trie.lpm_walk pfx V peq contains is_bit_set plen).
+Notation lpmm_walk := (Trie.lpmm_walk pfx V peq contains is_bit_set plen).
+Notation get_lpm := (Trie.get_lpm pfx V peq contains is_bit_set plen).
+Notation get_lpm_mut := (Trie.get_lpm_mut pfx V peq contains is_bit_set plen).
+Notation update_value := (Trie.update_value pfx V peq contains is_bit_set plen).
+
+Lemma in_ids_child i p v (l r : tree) (b : bool) j :
+  In j (ids (if b then r else l)) -> In j (ids (Node i p v l r)).
+Proof. intros H. cbn [Slots.ids]. right. apply in_app_iff. destruct b; auto. Qed.
+
+Lemma in_entries_id_child i p v (l r : tree) (b : bool) e :
+  In e (entries_id (if b then r else l)) -> In e (entries_id (Node i p v l r)).
+Proof. intros H. cbn [entries_id]. apply in_app_iff. right. apply in_app_iff. destruct b; auto. Qed.
+
+Lemma get_node_in (t : tree) : forall q i p v,
+  get_node t q = Some (i, p, v) ->
+  In i (ids t) /\ forall x, v = Some x -> In (i, p, x) (entries_id t).
+Proof.
+  induction t as [|i0 p0 v0 l IHl r IHr]; intros q i p v H; [discriminate|].
+  cbn [Trie.get_node] in H. destruct (peq p0 q).
+  - inversion H; subst. split; [left; reflexivity|]. intros x ->. left. reflexivity.
+  - set (b := to_right p0 q) in *.
+    assert (IHc : forall q i p v, get_node (if b then r else l) q = Some (i, p, v) ->
+              In i (ids (if b then r else l)) /\
+              forall x, v = Some x -> In (i, p, x) (entries_id (if b then r else l)))
+      by (destruct b; assumption).
+    destruct (if b then r else l) as [|ci cp cv cl cr] eqn:Ec; [discriminate|].
+    destruct (contains cp q); [|discriminate].
+    destruct (IHc _ _ _ _ H) as [A B]. rewrite <- Ec in A, B. split.
+    + eapply in_ids_child. exact A.
+    + intros x Hx. eapply in_entries_id_child. apply B. exact Hx.
+Qed.
+
+(** [get_mut(q)] followed by a write of [y] through the reference = the keyed update *)
+Theorem get_mut_write (t : tree) : forall q i p x y (h : pfx -> option V -> pfx * option V),
+  NoDup (ids t) -> get_node t q = Some (i, p, Some x) -> h p (Some x) = (p, Some y) ->
+  write_ids t [(i, y)] = modify t q h.
+Proof.
+  induction t as [|i0 p0 v0 l IHl r IHr]; intros q i p x y h Hnd Hg Hh; [discriminate|].
+  cbn [Slots.ids] in Hnd. inversion Hnd as [|i' l' Hi Hlr]; subst.
+  destruct (nodup_app_inv _ _ Hlr) as [Hl [Hr Hd]].
+  cbn [Trie.get_node] in Hg. cbn [Trie.modify write_ids].
+  destruct (peq p0 q).
+  - inversion Hg; subst. rewrite Hh. cbn [assoc_id]. rewrite N.eqb_refl.
+    rewrite !(write_ids_foreign pfx V); [reflexivity| |]; intros j Hj [<-|[]]; apply Hi; apply in_app_iff; auto.
+  - set (b := to_right p0 q) in *.
+    assert (IHc : forall q i p x y h, NoDup (ids (if b then r else l)) ->
+              get_node (if b then r else l) q = Some (i, p, Some x) -> h p (Some x) = (p, Some y) ->
+              write_ids (if b then r else l) [(i, y)] = modify (if b then r else l) q h)
+      by (destruct b; assumption).
+    assert (Hc : NoDup (ids (if b then r else l))) by (destruct b; assumption).
+    assert (Hic : ~ In i0 (ids (if b then r else l))).
+    { intros H. apply Hi. apply in_app_iff. destruct b; auto. }
+    assert (Ho : forall j, In j (ids (if b then r else l)) -> ~ In j (ids (if b then l else r))).
+    { intros j H1 H2. destruct b; apply (Hd j); assumption. }
+    destruct (if b then r else l) as [|ci cp cv cl cr] eqn:Ec; [discriminate|].
+    destruct (contains cp q); [|discriminate].
+    destruct (get_node_in _ _ _ _ _ Hg) as [Hin _].
+    assert (Hne : i <> i0) by (intros ->; exact (Hic Hin)).
+    cbn [assoc_id]. rewrite (proj2 (N.eqb_neq i i0) Hne).
+    assert (Hv : match v0 with Some _ => v0 | None => v0 end = v0) by (destruct v0; reflexivity).
+    rewrite Hv. rewrite <- (IHc q i p x y h Hc Hg Hh).
+    assert (Hoth : write_ids (if b then l else r) [(i, y)] = (if b then l else r)).
+    { apply (write_ids_foreign pfx V). intros j Hj [<-|[]]. exact (Ho _ Hin Hj). }
+    rewrite <- Ec. destruct b; cbn [with_child]; rewrite Hoth; reflexivity.
+Qed.
+
+(** the model of writes through [get_mut]/[and_modify] *)
+Corollary update_value_write (m : pmap pfx V) q g i p x :
+  NoDup (ids (root m)) -> get_node (root m) q = Some (i, p, Some x) ->
+  update_value m q g = mkmap (write_ids (root m) [(i, g x)]) (al m).
+Proof.
+  intros Hnd Hg. unfold Trie.update_value. f_equal. symmetry.
+  apply (get_mut_write (root m) q i p x (g x)); [exact Hnd | exact Hg | reflexivity].
+Qed.
+
+Lemma lpmm_walk_sim (t : tree) : forall q best,
+  option_map (drop_id pfx V) (lpmm_walk t q best) = lpm_walk t q (option_map (drop_id pfx V) best).
+Proof.
+  induction t as [|i0 p0 v0 l IHl r IHr]; intros q best; [reflexivity|].
+  cbn [Trie.lpmm_walk Trie.lpm_walk].
+  assert (Hb : option_map (drop_id pfx V) (match v0 with Some x => Some (i0, p0, x) | None => best end)
+               = match v0 with Some x => Some (p0, x) | None => option_map (drop_id pfx V) best end)
+    by (destruct v0; reflexivity).
+  destruct (peq p0 q); [exact Hb|].
+  destruct (to_right p0 q).
+  - destruct r as [|ci cp cv cl cr]; [exact Hb|]. destruct (contains cp q); [|exact Hb].
+    rewrite <- Hb. apply IHr.
+  - destruct l as [|ci cp cv cl cr]; [exact Hb|]. destruct (contains cp q); [|exact Hb].
+    rewrite <- Hb. apply IHl.
+Qed.
+
+Lemma lpmm_walk_in (t : tree) : forall q best e,
+  lpmm_walk t q best = Some e -> best = Some e \/ In e (entries_id t).
+Proof.
+  induction t as [|i0 p0 v0 l IHl r IHr]; intros q best e H; [left; exact H|].
+  cbn [Trie.lpmm_walk] in H.
+  assert (Hb : match v0 with Some x => Some (i0, p0, x) | None => best end = Some e ->
+               best = Some e \/ In e (entries_id (Node i0 p0 v0 l r))).
+  { destruct v0 as [x|]; [|auto]. intros E. inversion E; subst. right. left. reflexivity. }
+  destruct (peq p0 q); [exact (Hb H)|].
+  set (b := to_right p0 q) in *.
+  assert (IHc : forall q best e, lpmm_walk (if b then r else l) q best = Some e ->
+            best = Some e \/ In e (entries_id (if b then r else l))) by (destruct b; assumption).
+  destruct (if b then r else l) as [|ci cp cv cl cr] eqn:Ec; [exact (Hb H)|].
+  destruct (contains cp q); [|exact (Hb H)].
+  destruct (IHc _ _ _ H) as [A|A]; [exact (Hb A)|].
+  right. rewrite <- Ec in A. eapply in_entries_id_child. exact A.
+Qed.
+
+(** [get_lpm_mut] designates an item of the map, the one [get_lpm] reads *)
+Theorem get_lpm_mut_spec (t : tree) q :
+  option_map (drop_id pfx V) (get_lpm_mut t q) = get_lpm t q /\
+  forall e, get_lpm_mut t q = Some e -> In e (entries_id t).
+Proof.
+  unfold Trie.get_lpm_mut, Trie.get_lpm. split; [apply lpmm_walk_sim|].
+  intros e H. destruct (lpmm_walk_in t q None e H) as [A|A]; [discriminate | exact A].
+Qed.
+
+End MB.
+
+(* ========================================================================================== *)
+Print Assumptions write_ids_entries_id.
+Print Assumptions write_ids_keys.
+Print Assumptions write_ids_same_ids.
+Print Assumptions write_ids_skel.
+Print Assumptions entry_slots_nodup'.
+Print Assumptions write_through_items.
+Print Assumptions write_through_all.
+Print Assumptions write_ids_seq.
+Print Assumptions write_ids_comm.
+Print Assumptions write_ids_seq_disjoint.
+Print Assumptions interleaving_irrelevant.
+Print Assumptions interleaving_sequential.
+Print Assumptions subtree_ids_incl.
+Print Assumptions subtree_entries_id_incl.
+Print Assumptions subtree_slots_disjoint.
+Print Assumptions split_slots_disjoint.
+Print Assumptions subtree_writes_commute.
+Print Assumptions write_ids_local.
+Print Assumptions subtree_path_unique.
+Print Assumptions subtree_subst.
+Print Assumptions subtree_app.
+Print Assumptions subst_entries_id_ctx.
+Print Assumptions subst_set_tval_entries_id.
+Print Assumptions subst_set_tval_shape.
+Print Assumptions vm_write_virtual.
+Print Assumptions vm_remove_node.
+Print Assumptions vm_set_node.
+Print Assumptions vm_value_mut_node.
+Print Assumptions vm_remove_count.
+Print Assumptions vm_set_count.
+Print Assumptions vm_value_mut_count.
+Print Assumptions find_walk_m_sim.
+Print Assumptions find_walk_m_iff.
+Print Assumptions find_exact_walk_m_sim.
+Print Assumptions find_exact_walk_m_iff.
+Print Assumptions find_lpm_walk_m_sim.
+Print Assumptions vm_find_sim.
+Print Assumptions vm_find_exact_sim.
+Print Assumptions vm_find_lpm_sim.
+Print Assumptions vm_left_sim.
+Print Assumptions vm_right_sim.
+Print Assumptions vm_split_eq.
+Print Assumptions vm_has_left_spec.
+Print Assumptions vm_has_right_spec.
+Print Assumptions vm_prefix_sim.
+Print Assumptions vm_value_sim.
+Print Assumptions vm_iter_mut_spec.
+Print Assumptions vm_iter_mut_sim.
+Print Assumptions vm_iter_mut_refs.
+Print Assumptions vm_split_refs_disjoint.
+Print Assumptions vm_find_spec.
+Print Assumptions vm_find_exact_spec.
+Print Assumptions vm_find_lpm_spec.
+Print Assumptions vm_side_spec.
+Print Assumptions iter_mut_items_eq.
+Print Assumptions into_iter_items_eq.
+Print Assumptions children_spec.
+Print Assumptions children_mut_eq.
+Print Assumptions into_children_eq.
+Print Assumptions children_find.
+Print Assumptions children_mut_refs.
+Print Assumptions get_mut_write.
+Print Assumptions update_value_write.
+Print Assumptions get_lpm_mut_spec.
